@@ -392,13 +392,13 @@ func (g *gen) admit(field string, est int64) bool {
 }
 
 type gen struct {
-	lay   *layout
-	rng   *rand.Rand
-	quick bool
+	lay         *layout
+	rng         *rand.Rand
+	quick       bool
 	skippedHuge int
 	sampledOut  int
 	hugeDone    map[string]bool
-	out   []alteration
+	out         []alteration
 	// classes realised by single-bit flips, per span index
 	single map[int]map[string][]int // span -> class -> bit indexes (bit b of byte i = 8*i + b)
 }
@@ -422,7 +422,7 @@ func (g *gen) flipBit(si, bit int) ([]byte, []patch) {
 }
 
 // weight of a bit inside a big-endian field
-func weightOf(s *span, bit int) int { return (s.Len-1-bit/8)*8 + bit%8 }
+func weightOf(s *span, bit int) int  { return (s.Len-1-bit/8)*8 + bit%8 }
 func bitOfWeight(s *span, w int) int { return (s.Len-1-w/8)*8 + w%8 }
 
 // quick tier: which bits of a field instance are executed (nil = all).  Every instance of every field is
@@ -708,6 +708,38 @@ func (g *gen) compounds() {
 	}
 }
 
+// stratify orders the alterations so that every prefix covers the (field, class) cells and the txs as evenly as
+// possible: round-robin over the cells, seeded order inside a cell
+func stratify(alts []alteration, rng *rand.Rand) {
+	groups := map[string][]alteration{}
+	var keys []string
+	for _, a := range alts {
+		k := altKey(a.Alts)
+		if _, ok := groups[k]; !ok {
+			keys = append(keys, k)
+		}
+		groups[k] = append(groups[k], a)
+	}
+	sort.Strings(keys)
+	for _, k := range keys {
+		g := groups[k]
+		rng.Shuffle(len(g), func(i, j int) { g[i], g[j] = g[j], g[i] })
+	}
+	out := alts[:0]
+	for round := 0; len(out) < cap(alts) && round < len(alts)+1; round++ {
+		added := false
+		for _, k := range keys {
+			if round < len(groups[k]) {
+				out = append(out, groups[k][round])
+				added = true
+			}
+		}
+		if !added {
+			break
+		}
+	}
+}
+
 // ---- images: hard links for untouched files, a private patched copy of the altered ones
 func makeImage(src, dst string, ps []patch, skipIndex bool) {
 	byFile := map[string][]patch{}
@@ -820,13 +852,13 @@ var rankKind = map[string]int{"same": 0, "err": 1, "degraded": 2, "diff": 3, "pa
 var perTxPaths = map[string]bool{pReadTx: true, pHeader: true, pEntry: true, pValue: true, pExport: true}
 
 type storeCtx struct {
-	cfg       *cfgClass
-	dir       string // pristine directory
-	lay       *layout
-	pristine  map[string]item
-	truncExp  map[int]string // tx -> hex of the export without values
-	selftest  bool
-	quick     bool
+	cfg      *cfgClass
+	dir      string // pristine directory
+	lay      *layout
+	pristine map[string]item
+	truncExp map[int]string // tx -> hex of the export without values
+	selftest bool
+	quick    bool
 }
 
 func (sc *storeCtx) judge(path string, alt *alteration, items []item) pathObs {
@@ -940,9 +972,9 @@ func (sc *storeCtx) run(alt *alteration, w *workerImg, id int, self string) altR
 	}
 	// index rebuild after deleting the index directory; in a child process when the same tx already made a
 	// parser panic (the indexer goroutine would take the whole process down)
-	if sc.quick && alt.Kind == "bit" && id%4 != 0 && !indexSensitive[alt.Alts[0][0]] {
+	if sc.quick && alt.Kind == "bit" && id%6 != 0 && !indexSensitive[alt.Alts[0][0]] {
 		// quick tier: fields that the record's Alh covers make the indexer stop on the same readTx error as the
-		// ReadTx path; the index rebuild runs for every fourth of those alterations and for all others
+		// ReadTx path; the index rebuild runs for every sixth of those alterations and for all others
 		res.obs[pIndex] = pathObs{Kind: "skipped"}
 		return res
 	}
@@ -978,7 +1010,11 @@ func (l *layout) spanAt(region string, off int64) *span {
 }
 
 func childIndex(img string, sc *storeCtx) []item {
-	cmd := exec.Command(os.Args[0], "-child-index", img, "-class", sc.cfg.Name, "-pristine", sc.dir)
+	tier := "thorough"
+	if sc.quick {
+		tier = "quick"
+	}
+	cmd := exec.Command(os.Args[0], "-child-index", img, "-class", sc.cfg.Name, "-pristine", sc.dir, "-tier", tier)
 	var out, errb bytes.Buffer
 	cmd.Stdout, cmd.Stderr = &out, &errb
 	done := make(chan error, 1)
@@ -1018,10 +1054,12 @@ func main() {
 	selftest := flag.String("selftest", "", "binding self-test: corrupt the observation of this path")
 	only := flag.String("only", "", "run only this configuration class")
 	limit := flag.Int("limit", 0, "(development) execute only the first N alterations per class")
+	budget := flag.Float64("budget", 0, "seconds per class after which the remaining alterations (stratified order) are not executed; 0 = all")
 	child := flag.String("child-index", "", "(internal) run the index rebuild path on this image and print the items")
 	class := flag.String("class", "", "(internal)")
 	pristineDir := flag.String("pristine", "", "(internal)")
 	dump := flag.Bool("dump", false, "print the observed matrix to stderr")
+	repro := flag.Bool("repro", false, "run the minimal reproductions of the known findings in -dir and print them")
 	flag.Parse()
 
 	var rl syscall.Rlimit
@@ -1037,6 +1075,7 @@ func main() {
 	if *child != "" {
 		for i := range classes {
 			if classes[i].Name == *class {
+				quickWorkload = *tier != "thorough"
 				ntx := len(workload(&classes[i], 1))
 				lay, err := parseLayout(*pristineDir, &classes[i], ntx)
 				vh.Must(err, "child layout")
@@ -1053,10 +1092,15 @@ func main() {
 		pprof.StartCPUProfile(f)
 		defer pprof.StopCPUProfile()
 	}
+	if *repro {
+		vh.Must(json.NewEncoder(os.Stdout).Encode(runRepros(*dir, *seed)), "encode")
+		return
+	}
 	if *workers > 8 {
 		*workers = 8
 	}
 	quick := *tier != "thorough"
+	quickWorkload = quick
 	var m matrix
 	vh.ReadJSON(*casesPath, &m)
 	m.index()
@@ -1074,7 +1118,7 @@ func main() {
 	distinct := map[string]bool{}
 	timing := map[string]float64{}
 	unrealisedTotal := 0
-	var evals atomic.Int64
+	var evals, slow atomic.Int64
 
 	for ci := range classes {
 		c := &classes[ci]
@@ -1145,6 +1189,7 @@ func main() {
 		g.multis(&m, per)
 		unrealisedTotal += g.pairs(&m, per/2+0)
 		g.compounds()
+		stratify(g.out, g.rng)
 		res.Count("alterations:"+c.Name+":single-bit", nSingles)
 		res.Count("alterations:"+c.Name+":multi-bit/two-field/compound", len(g.out)-nSingles)
 		bitsTotal := 0
@@ -1171,7 +1216,14 @@ func main() {
 					if *selftest != "" && id == 0 {
 						self = *selftest
 					}
+					tAlt := time.Now()
 					r := sc.run(alt, wimg, id, self)
+					if el := time.Since(tAlt); el > 2*time.Second {
+						slow.Add(1)
+						if os.Getenv("C09_DEBUG") != "" {
+							fmt.Fprintf(os.Stderr, "SLOW %.1fs %s | %s | %v\n", el.Seconds(), alt.Desc, altKey(alt.Alts), kinds(r.obs))
+						}
+					}
 					n := len(lay.txs)
 					pos, shape := "inner", "nN"
 					if alt.Tx == n {
@@ -1272,6 +1324,10 @@ func main() {
 			if *limit > 0 && id >= *limit {
 				break
 			}
+			if *budget > 0 && time.Since(ts).Seconds() > *budget {
+				res.Count("alterations-not-executed-time-budget:"+c.Name, len(g.out)-id)
+				break
+			}
 			jobs <- id
 			if id%500 == 499 {
 				fmt.Fprintf(os.Stderr, "[c09] %s: %d/%d alterations, %.0fs\n", c.Name, id+1, len(g.out), time.Since(ts).Seconds())
@@ -1303,7 +1359,12 @@ func main() {
 		}
 		byAlt[ak][parts[2]] = ca
 	}
+	pairLines := 0
 	for ak, ps := range byAlt {
+		if strings.Contains(ak, "+") { // the per-pair cells are only counted (counters); the evidence lists singles and compounds
+			pairLines++
+			continue
+		}
 		var sb strings.Builder
 		sb.WriteString(ak)
 		for _, p := range allPaths {
@@ -1327,8 +1388,10 @@ func main() {
 	}
 	sort.Strings(lines)
 	res.Extra["observed_matrix"] = lines
+	res.Extra["observed_matrix_pair_rows_not_listed"] = pairLines
 	res.Extra["timing_s"] = timing
 	res.Extra["late_finishes"] = lateFinishes.Load()
+	res.Extra["alterations_slower_than_2s"] = slow.Load()
 	res.Extra["unrealised_pairs"] = unrealisedTotal
 	res.Extra["harness_wall_s"] = time.Since(t0).Seconds()
 	res.Distinct = len(distinct)
